@@ -33,14 +33,20 @@ TRUSTED = [
 ]
 ASSUMPTIONS = [
     "chromosome names and output prefixes are ASCII (str.lower / isdigit / \\d of the natural sort key are modelled for ASCII)",
-    "the output prefix does not re-occur later in an output file name (rreplace replaces the last occurrence: prefix 'S' + "
-    "--sqanti_output breaks merge_files for every configuration alike; not a C06 matter)",
+    "the part-file names are those of the repaired merge_file_list (fix_prefix_in_suffix: the label the base name starts with; "
+    "Props/C05Names.lean part_name_is_written_name) - the prefix may occur anywhere else in the path",
+    ".gz outputs (IsoQuant's default mode; option sets GZ_OPTSETS) are compared decompressed: the command-line header and the "
+    "gzip time stamp are inside the compressed stream",
     "files kept only by --keep_tmp (<prefix>/aux/*) are intermediate files, not output files: the `_groups` / `_info` "
     "dumps list read groups in set order and are consumed through set()/sorted() only",
     "a reference transcript id belongs to one chromosome (gffutils primary key) - only needed for the pre-42b6bc8 model",
 ]
 
 PREFIX = "Q7x"
+# option sets run in IsoQuant's default output mode (no --no_gzip): audit2-B GAP C06-2
+GZ_OPTSETS = {"grouped", "plain"}
+# matrices whose input the repaired tree refuses at start-up (exit code 254, message, no traceback) in EVERY configuration
+EXPECT_REFUSAL = {"aux_file_names"}
 
 OPTSETS = {
     "grouped": ["--count_exons", "--read_group", "read_id:_", "--sqanti_output", "--check_canonical"],
@@ -74,13 +80,16 @@ def run_config(base, paths, idx, cfg, optset, trace=False, timeout=900):
         wrapper = os.path.join(vlib.HERE, "c06_wrapper.py")
         if os.path.exists(tr):
             os.remove(tr)
-    rc, log = pipeline.run_isoquant(out, pipeline.std_args(paths, prefix=PREFIX, threads=cfg.get("threads", 1),
-                                                           genedb=(optset != "nogenedb"), extra=extra),
+    prefix = cfg.get("prefix", PREFIX)
+    rc, log = pipeline.run_isoquant(out, pipeline.std_args(paths, prefix=prefix, threads=cfg.get("threads", 1),
+                                                           genedb=(optset != "nogenedb"), extra=extra,
+                                                           gzipped=(optset in GZ_OPTSETS and not trace)),
                                     home=os.path.join(base, "home%d" % idx), env=env, wrapper=wrapper, timeout=timeout)
     files = {}
-    for fn, p in pipeline.out_files(out, PREFIX).items():
-        with open(p, errors="replace") as f:
-            files[fn] = pipeline.strip_cmdline(f.read())
+    for fn, p in pipeline.out_files(out, prefix).items():
+        # .gz outputs (default mode) are compared decompressed: the command-line header that the statement lets us ignore
+        # and the gzip time stamp are both inside the compressed stream (reading rule, docs/C06.md)
+        files[fn] = pipeline.strip_cmdline(pipeline.read_text(p))
     recs = []
     if trace and os.path.exists(tr):
         with open(tr) as f:
@@ -149,9 +158,26 @@ def pipeline_matrix(ctx, data_seed, optset, cfgs, n_chroms=3, workers=6, label="
         ctx.count("pipeline_runs", len(res))
         ctx.count("optset:" + optset, len(res))
         if ref_rc != 0 or not ref_files:
-            ctx.notes.append("reference pipeline run failed (rc=%s) for data_seed=%s optset=%s: %s" % (ref_rc, data_seed, optset, ref_log[-400:]))
+            # audit2-B GAP C06-3: the exit status is an output as well - a reference configuration that fails is no
+            # excuse for the others; they must fail the same way
             ctx.count("pipeline_reference_failed")
-            return 0
+            differs = 0
+            for cfg, (rc, files, log, _) in zip(cfgs[1:], res[1:]):
+                if rc != ref_rc:
+                    differs += 1
+                    inp = {"data_seed": data_seed, "n_chroms": n_chroms, "optset": optset, "ref": cfgs[0], "cfg": cfg}
+                    if chrom_names:
+                        inp["chrom_names"] = list(chrom_names)
+                    ctx.fail("exit_status_differs:" + "+".join(cfg_axes(cfgs[0], cfg)), inp,
+                             "rc %s vs %s: %s || %s" % (ref_rc, rc, ref_log[-300:], log[-300:]))
+                else:
+                    ctx.count("configs_equal_exit_status_nonzero")
+            refused = ref_rc == 254 and "Traceback" not in ref_log
+            if not (refused and label in EXPECT_REFUSAL):
+                ctx.notes.append("reference pipeline run failed (rc=%s) for data_seed=%s optset=%s: %s" % (ref_rc, data_seed, optset, ref_log[-400:]))
+            else:
+                ctx.count("pipeline_reference_refused_at_startup:" + label)
+            return len(res)
         nbytes = sum(len(v) for v in ref_files.values())
         for cfg, (rc, files, log, _) in zip(cfgs[1:], res[1:]):
             axes = cfg_axes(cfgs[0], cfg)
@@ -201,8 +227,10 @@ def rand_chr_names(rng):
 
 def merge_case(rng):
     chr_ids = rand_chr_names(rng)
-    label = rng.choice(["Q7x", "smp9", "A_b"])
-    suffix = rng.choice([".transcript_models.gtf", ".gene_counts.tsv", ".read_assignments.tsv", "_7.bed"])
+    # labels that occur inside the suffix / the chromosome names as well (audit2-B defect 13: the part names must not depend on it)
+    label = rng.choice(["Q7x", "smp9", "A_b", "a", "t", "reads", "gene", "S", "e", "_", "chr"])
+    suffix = rng.choice([".transcript_models.gtf", ".gene_counts.tsv", ".read_assignments.tsv", "_7.bed",
+                         ".novel_vs_known.SQANTI-like.tsv", ".corrected_reads.bed"])
     copy_header = rng.random() < 0.5
     header_lines = rng.choice([0, 0, 1, 1, 3])
     contents = []
@@ -969,6 +997,15 @@ def oracle(ctx, disagreements, broken):
         cfgs = [cfgs[0]] + [c for c in cfgs[1:] if c["threads"] > 1][:3]
     runs += pipeline_matrix(ctx, ctx.rng.randint(0, 10 ** 9), "grouped", cfgs, chrom_names=c06data.EQUAL_KEY_CHROMS,
                             label="equal_natural_keys")
+    # contigs whose auxiliary files share a name (audit2-B GAP C06-1, gen/c06data.py AUX_NAME_CHROMS): reference run
+    # threads 1 against multi-threaded runs only (the collision shows when two tasks overlap in time)
+    seeds = lambda: ctx.rng.randint(1, 4294967295)
+    cfgs = [{"threads": 1, "hashseed": 0, "high_memory": False, "keep_tmp": False}] + \
+           [{"threads": t, "hashseed": seeds(), "high_memory": hm, "keep_tmp": False}
+            for t, hm in ([(4, False), (2, True), (4, False), (3, False), (16, False), (4, True), (2, False)] if quick else
+                          [(4, False), (2, True), (4, False), (3, False), (16, False), (4, True), (2, False)] * 3)]
+    runs += pipeline_matrix(ctx, ctx.rng.randint(0, 10 ** 9), "plain", cfgs, chrom_names=c06data.AUX_NAME_CHROMS,
+                            label="aux_file_names", workers=8)
     ctx.extra["oracle_pipeline_runs"] = runs
 
 
@@ -993,6 +1030,12 @@ def replay(ctx, failure):
         paths = ds.write(os.path.join(base, "data"))
         a = run_config(base, paths, 0, inp["ref"], inp["optset"])
         b = run_config(base, paths, 1, inp["cfg"], inp["optset"])
+        # a difference that needs two tasks to overlap in time (contigs sharing an auxiliary file) does not show in every
+        # run: the failing configuration is repeated
+        tries = 12 if inp.get("chrom_names") == c06data.AUX_NAME_CHROMS else 1
+        while a[0] == b[0] and tries > 1:
+            tries -= 1
+            b = run_config(base, paths, 1, inp["cfg"], inp["optset"])
         d = diff_files(a[1], b[1])
         if a[0] != b[0]:
             print("  exit status %s vs %s" % (a[0], b[0]))
